@@ -163,7 +163,7 @@ impl Prop for C04 {
             },
         ));
         {
-            let dl = tier.pick(3, 4);
+            let dl = tier.pick(2, 4);
             f.push(Family::new(
                 "language-histories",
                 Mode::Full,
@@ -179,7 +179,7 @@ impl Prop for C04 {
             ));
         }
         {
-            let dd = tier.pick(3, 4);
+            let dd = tier.pick(2, 4);
             f.push(Family::new(
                 "colliding-unit-histories",
                 Mode::Full,
